@@ -6,6 +6,7 @@ import (
 	"path/filepath"
 	"sync"
 	"sync/atomic"
+	shimsyncutil "verif/shim/syncutil"
 
 	"go4.org/jsonconfig"
 	"perkeep.org/pkg/blobserver"
@@ -40,9 +41,12 @@ type Node struct {
 	NRead       int   `json:"nread,omitempty"`       // replica: first NRead kids are readBackends (0 = default)
 	CacheBytes  int64 `json:"cacheBytes,omitempty"`  // proxycache maxCacheBytes / memory cache size
 	// ReadKids (replica): explicit readBackends; may share nodes with Kids.
-	ReadKids    []*Node `json:"readKids,omitempty"`
-	NoRemove    bool    `json:"noRemove,omitempty"` // sim leaf without remove / cond without remove target / overlay without deleted
-	ReadOnlyKid int     `json:"-"`
+	ReadKids []*Node `json:"readKids,omitempty"`
+	NoRemove bool    `json:"noRemove,omitempty"` // sim leaf without remove / cond without remove target / overlay without deleted
+	// Gate (files): width of the new-file gate (localdisk derives one from
+	// the descriptor limit; 0 = none, as files.NewStorage leaves it)
+	Gate        int `json:"gate,omitempty"`
+	ReadOnlyKid int `json:"-"`
 }
 
 // Walk visits n and all descendants.
@@ -200,6 +204,7 @@ func (w *World) Restart(graceful bool) {
 		}
 	} else {
 		old.Kill()
+		shimsyncutil.VerifProcessDied()
 	}
 	g := w.Env.NewGen()
 	w.mu.Lock()
@@ -276,6 +281,10 @@ func (w *World) GetStorage(prefix string) (blobserver.Storage, error) {
 	return s, nil
 }
 
+// FilesGateHook, set by an engine package (the accessor it calls exists only
+// under the overlay), gives a files store a new-file gate of the given width.
+var FilesGateHook func(fs *files.Storage, width int)
+
 func kvConf(name string) map[string]any { return map[string]any{"type": "simkv", "name": name} }
 
 func (w *World) kid(n *Node, i int) string { return prefixOf(n.Kids[i].Name) }
@@ -289,7 +298,11 @@ func (w *World) construct(n *Node, g *Gen) (blobserver.Storage, error) {
 		// engines never restart compositions containing it as a leaf.
 		return &memory.Storage{}, nil
 	case "files":
-		return files.NewStorage(&SimVFS{Env: w.Env, G: g, St: w.VFS(n.Name)}, "/blobs"), nil
+		fs := files.NewStorage(&SimVFS{Env: w.Env, G: g, St: w.VFS(n.Name)}, "/blobs")
+		if n.Gate > 0 && FilesGateHook != nil {
+			FilesGateHook(fs, n.Gate)
+		}
+		return fs, nil
 	case "localdisk":
 		dir := filepath.Join(w.Dir, n.Name)
 		if err := os.MkdirAll(dir, 0o755); err != nil {
